@@ -57,7 +57,7 @@ def main():
         args.remove('--all-checks')
     seeds = args or sorted(os.listdir(os.path.join(VERIF, 'seeded')))
     rows = []
-    with cf.ThreadPoolExecutor(max_workers=3) as ex:
+    with cf.ThreadPoolExecutor(max_workers=5) as ex:
         for sid, pid, res in ex.map(lambda s: run_seed(s, tier, allchecks), seeds):
             mp = os.path.join(VERIF, 'seeded', sid, 'meta.json')
             meta = json.load(open(mp))
